@@ -313,6 +313,8 @@ type feats struct {
 	acceptUnderPostNested, rerunAfterPendingReturn, hEval, concBranch int
 	maxDepth                                                          int
 	skipped, matched                                                  int
+	deferredReg                                                       map[string]int // kept continuations registered, by wrapper kind
+	deferredPending                                                   int            // ... whose continuation contains a pending jump return
 }
 
 type refOverflow struct{}
@@ -323,7 +325,8 @@ type refState struct {
 	steps     *int
 	limit     int
 	ft        *feats
-	postDepth int // dynamic nesting inside wrappers that act after their continuation
+	postDepth int    // dynamic nesting inside wrappers that act after their continuation
+	deferred  []dres // continuations kept by late-running wrappers, in registration order
 }
 
 func (st *refState) emit(s string) {
@@ -519,6 +522,22 @@ func (rp *refProg) wrap(a *refAction, rest *kframe, st *refState) string {
 			return e1
 		}
 		return e2
+	case "lateg", "lategc", "later", "laterc", "later3":
+		// the wrapper copies the query, keeps (copy, continuation) for later and
+		// either stops (like a cache answering from a stale entry) or continues.
+		st.emit(pre)
+		ds := &refState{resp: st.resp, steps: st.steps, limit: st.limit, ft: st.ft, postDepth: st.postDepth}
+		e := rp.run(rest, ds)
+		st.ft.deferredReg[a.kind]++
+		if rest.up != nil {
+			st.ft.deferredPending++
+		}
+		st.deferred = append(st.deferred, dres{Label: a.label, Kind: a.kind,
+			Res: &result{Trace: ds.trace, Resp: ds.resp, Err: errStr(e), Deferred: ds.deferred}})
+		if a.kind == "lategc" || a.kind == "laterc" {
+			return rp.run(rest, st)
+		}
+		return ""
 	case "conc":
 		st.emit(pre)
 		var sb strings.Builder
@@ -538,6 +557,7 @@ func (rp *refProg) wrap(a *refAction, rest *kframe, st *refState) string {
 			if b == 0 {
 				b0resp = bs.resp
 			}
+			st.deferred = append(st.deferred, bs.deferred...)
 		}
 		st.emit(sb.String())
 		st.resp = b0resp // the harness wrapper adopts branch 0's response
@@ -547,9 +567,36 @@ func (rp *refProg) wrap(a *refAction, rest *kframe, st *refState) string {
 }
 
 type result struct {
-	Trace []string `json:"trace"`
-	Resp  string   `json:"final_response"`
-	Err   string   `json:"error"`
+	Trace    []string `json:"trace"`
+	Resp     string   `json:"final_response"`
+	Err      string   `json:"error"`
+	Deferred []dres   `json:"kept_continuations,omitempty"`
+}
+
+// dres: a continuation kept by a late-running wrapper. Res is what every later
+// run of it (on a fresh copy of the query as it was when the wrapper ran) must
+// produce: the same remaining rules as an immediate run. On the observed side
+// Res is nil while the run has not happened yet.
+type dres struct {
+	Label string  `json:"wrapper"`
+	Kind  string  `json:"kind"`
+	Res   *result `json:"run,omitempty"`
+}
+
+func isLateKind(k string) bool {
+	switch k {
+	case "lateg", "lategc", "later", "laterc", "later3":
+		return true
+	}
+	return false
+}
+
+// how often the kept continuation is run later
+func lateRuns(k string) int {
+	if k == "later3" {
+		return 3
+	}
+	return 1
 }
 
 // exec runs entry sequence at top level. ok=false: the trace exceeds the step
@@ -569,9 +616,9 @@ func (rp *refProg) exec(entry int, preset bool, limit int, ft *feats) (res resul
 		}
 	}()
 	e := rp.run(&kframe{seq: entry}, st)
-	return result{Trace: st.trace, Resp: st.resp, Err: errStr(e)}, steps, true
+	return result{Trace: st.trace, Resp: st.resp, Err: errStr(e), Deferred: st.deferred}, steps, true
 }
 
 func newFeats() *feats {
-	return &feats{wrapKinds: map[string]int{}, wrapPending: map[string]int{}}
+	return &feats{wrapKinds: map[string]int{}, wrapPending: map[string]int{}, deferredReg: map[string]int{}}
 }
